@@ -210,11 +210,12 @@ def run(prop, tier, seed, units, work, t0):
                             % (r.unit, r.status, (r.reason or '; '.join(e['message'] + ' in ' + str(e['fn']) for e in r.errors[:3]))[:300]))
     extra = {}
     kani_results = []
+    # the Kani leaf lemmas do not depend on the Verus units: a definite failure there is reported even when a unit is inconclusive
+    try:
+        kani_results = thorough_mod.kani_lemmas(prop, tier, work)
+    except Exception as e:  # kani infrastructure trouble is never an alarm
+        problems.append('kani lemma run failed: %s' % e)
     if not inconclusive:
-        try:
-            kani_results = thorough_mod.kani_lemmas(prop, tier, work)
-        except Exception as e:  # kani infrastructure trouble is never an alarm
-            problems.append('kani lemma run failed: %s' % e)
         if tier == 'thorough':
             extra = thorough_mod.run_thorough(prop, units, results, work)
             problems += extra.pop('problems', [])
